@@ -192,6 +192,10 @@ def _concrete_chain(case, m, write_csv=False):
     ir.repo_root = tmp
     try:
         with np.errstate(all="ignore"):
+            if case.get("rerun"):
+                # an earlier run under the same title has already left its table on disk (other numbers): the second run's table must replace it
+                other = {p: [np.float64(v * 0.5 + 1.0) for v in vals[p]] for p in vals}
+                _chain(ex, ir, fd, om, consts, N, other, [x + 1 for x in milk], fish, gh, prod, {}, tmp)
             c, I = _chain(ex, ir, fd, om, consts, N, vals, milk, fish, gh, prod, {}, tmp)
         import pandas as pd
         df = pd.read_csv(os.path.join(tmp, "results", "vp_c04_ykcals.csv"))
@@ -242,8 +246,8 @@ def validate_csv(rep):
     """concrete: the CSV written to disk by the real pandas call re-reads to the returned numbers (the symbolic run stubs pandas)."""
     rng = np.random.RandomState(3)
     ok = 0
-    for _ in range(3):
-        case = dict(N=3)
+    for it in range(4):
+        case = dict(N=3) if it < 3 else dict(N=3, rerun=True)
         m = {}
         for p in PREF + ["milk", "fish", "greenhouse", "crop_production"]:
             if p.endswith("_fat") or p.endswith("_protein"):
@@ -251,6 +255,11 @@ def validate_csv(rep):
             for i in range(3):
                 m["%s_%d" % (p, i)] = "%d/1000" % rng.randint(0, 50000)
         r = replay_chain(case, dict(model=m))
+        if r.get("reproduced") and case.get("rerun"):
+            # the single-run validations passed: this is the real code leaving a stale table behind, not an encoding question
+            rep.found("headline_breakdown_and_saved_table", json.dumps(case), "saved table column equals the returned series (second run under the same title)",
+                      dict(r, key="chain/saved table not replaced by a second run"))
+            return
         if r.get("reproduced"):
             rep.fail_inconclusive("concrete chain validation failed: %s" % r["what"])
             return
